@@ -196,7 +196,12 @@ pub fn c15_pipeline_cases(thorough: bool, seed: u64) -> Vec<(Shape, ErrPlan)> {
     for k in 0..n {
         let depth = 1 + (k % 3) as usize;
         let tseed = seed.wrapping_mul(1000).wrapping_add(k as u64);
-        let p1: Vec<Op> = if k % 2 == 0 { vec![Commit, Commit, AllocMul, ConTree(tseed, depth)] } else { vec![Commit, AllocMul, Alloc, Alloc, ConTree(tseed, depth)] };
+        let p1: Vec<Op> = match k % 4 {
+            0 => vec![Commit, Commit, AllocMul, ConTree(tseed, depth)],
+            1 => vec![Commit, AllocMul, Alloc, Alloc, ConTree(tseed, depth)],
+            2 => vec![Commit, Commit, AllocMul, MulTree(tseed, depth), ConTree(tseed + 1, 1)],
+            _ => vec![Commit, AllocMul, MulTree(tseed, depth), Con],
+        };
         // accept case (c is the value) and reject case (c is off by a symbolic non-zero amount)
         v.push((Shape::new(&format!("tree{}_accept", k), &p1, &[]), ErrPlan::default()));
         v.push((Shape::new(&format!("tree{}_offset", k), &p1, &[]), ErrPlan { con: vec![0], gate: vec![] }));
